@@ -33,7 +33,7 @@ RULES = {
 }
 MIN = {"R1": 4, "R2": 4, "R3": 5, "R4": 4, "R5": 1, "R6": 3, "R7": 2, "R8": 5, "R9": 2, "R10": 2}
 TRUSTED = ["numpy reductions: mean(axis=1) over a (experiment, theta) matrix reduces thetas", "np.var is the population variance"]
-TECHNIQUE = "polynomial/reduction normal forms compared against forms written from the statement; writer/reader agreement"
+TECHNIQUE = "polynomial/reduction normal forms compared against forms written from the statement; writer/reader agreement; path-condition forms of the effect-table entry (row selection non-empty, not a test of the values)"
 LEVEL_TEXT = ("Each reported number is an expression over the inputs; its canonical form is compared with the canonical form "
               "of the stated definition (axis roles fixed), so an axis mix-up, mean-vs-last, or a per-chain average in place of "
               "the overall mean is reported for all inputs although small symmetric fixtures coincide.")
